@@ -97,6 +97,11 @@ impl Session {
     /// Loads a register from an abstract value through the public constructors and logs what the
     /// real value projects to (the specification requires it to be the requested value).
     pub fn init(&mut self, dst: &'static str, val: Value) {
+        let mut val = val;
+        if val["loc"] == true {
+            // a scenario may have edited "off" after the value was drawn: Local resolves to what it resolves to
+            val["off"] = json!(astrolabe::Offset::Local.resolve());
+        }
         let v = match guarded(|| val_from_json(&val)) {
             Outcome::Ok(v) => v,
             Outcome::Panic(_) => Val::None,
@@ -209,6 +214,11 @@ impl Session {
     }
     pub fn dt_val(&mut self, with_off: bool) -> Value {
         let off = if with_off { self.gen_off() } else { 0 };
+        if with_off && self.rng.chance(1, 12) {
+            // the value carries Offset::Local; "off" is what Local resolves to on this machine
+            let local = astrolabe::Offset::Local.resolve();
+            return json!({"ty": "dt", "dn": self.gen_dn(), "sod": self.gen_sod(), "ns": self.gen_ns(), "off": local, "loc": true});
+        }
         json!({"ty": "dt", "dn": self.gen_dn(), "sod": self.gen_sod(), "ns": self.gen_ns(), "off": off})
     }
     pub fn dt_near(&mut self, base: &Value) -> Value {
@@ -237,6 +247,10 @@ impl Session {
     }
     pub fn time_val(&mut self, with_off: bool) -> Value {
         let off = if with_off { self.gen_off() } else { 0 };
+        if with_off && self.rng.chance(1, 12) {
+            let local = astrolabe::Offset::Local.resolve();
+            return json!({"ty": "time", "sod": self.gen_sod(), "ns": self.gen_ns(), "off": local, "loc": true});
+        }
         json!({"ty": "time", "sod": self.gen_sod(), "ns": self.gen_ns(), "off": off})
     }
     pub fn gen_duration(&mut self) -> (u64, u32) {
@@ -494,6 +508,7 @@ fn scen_c08(s: &mut Session, n: u64) {
                 9 => {
                     s.step("time_cmp", "T", "U", None, json!({}));
                     s.step("time_get", "T", "T", None, json!({}));
+                    s.step("time_fmt_get", "T", "T", None, json!({}));
                 }
                 10 => {
                     let d = s.dt_val(true);
@@ -631,6 +646,7 @@ fn scen_c09(s: &mut Session, n: u64) {
                 s.step("time_clear", "T", "T", Some("T"), json!({"f": f}));
             }
             s.step("time_get", "T", "T", None, json!({}));
+            s.step("time_fmt_get", "T", "T", None, json!({}));
         }
         let d = s.date_val();
         s.init("D", d);
@@ -674,6 +690,7 @@ fn scen_c10(s: &mut Session, n: u64) {
             let which = if s.rng.chance(1, 2) { "time_set_offset" } else { "time_as_offset" };
             s.step(which, "T", "T", Some("T"), json!({"o": o}));
             s.step("time_get", "T", "T", None, json!({}));
+            s.step("time_fmt_get", "T", "T", None, json!({}));
         }
         // constructors of Offset
         let sec: i64 = match s.rng.below(4) {
